@@ -35,6 +35,8 @@ RICH_XSD = '''<xs:schema xmlns:xs="http://www.w3.org/2001/XMLSchema" targetNames
    <xs:element name="u" type="t:u" minOccurs="0"/>
    <xs:element name="f" type="xs:double" minOccurs="0"/>
    <xs:element name="b64" type="xs:base64Binary" minOccurs="0"/>
+   <xs:element name="note" minOccurs="0" fixed="hello"><xs:complexType mixed="true"><xs:sequence>
+     <xs:element name="x" type="xs:string" minOccurs="0"/></xs:sequence></xs:complexType></xs:element>
    <xs:element name="sub" type="t:item" minOccurs="0" maxOccurs="3"/>
    <xs:any namespace="##other" processContents="lax" minOccurs="0" maxOccurs="2"/>
   </xs:sequence>
@@ -58,6 +60,9 @@ BASE_DOCS = [
     # the second item violates the unique constraint U declared on the intermediate element
     '<t:root xmlns:t="urn:c11"><t:item><t:n>1</t:n><t:sub><t:n>1</t:n></t:sub><t:sub><t:n>2</t:n></t:sub></t:item>'
     '<t:item><t:n>2</t:n><t:sub><t:n>1</t:n></t:sub><t:sub><t:n>1</t:n></t:sub></t:item></t:root>',
+    # a fixed value on an element of mixed complex type: equal / different text
+    '<t:root xmlns:t="urn:c11"><t:item><t:n>1</t:n><t:note>hello</t:note></t:item><t:item><t:n>2</t:n><t:note>bye</t:note></t:item></t:root>',
+    '<t:root xmlns:t="urn:c11"><t:item><t:n>1</t:n><t:note>hello</t:note></t:item></t:root>',
     # an empty sub element (content not complete) below the chunks of a lazy depth 3
     '<t:root xmlns:t="urn:c11"><t:item id="a1" k="5"><t:n>1</t:n><t:sub ref="a1"></t:sub></t:item><t:item><t:n>2</t:n></t:item></t:root>',
 ]
